@@ -745,6 +745,10 @@ func (vc *VC) pureResolver(ctx *ssa.Function) func(name string, args []Term) (Te
 	}
 	return func(name string, args []Term) (Term, bool) {
 		key := dir + ":" + name
+		if i := strings.Index(name, "__"); i > 0 {
+			// pure function of another package: <pkgdir with _ for />__<Name>
+			key = strings.ReplaceAll(name[:i], "_", "/") + ":" + name[i+2:]
+		}
 		con := vc.cs.Funcs[key]
 		if con == nil || !con.Pure {
 			return Term{}, false
